@@ -393,13 +393,22 @@ def run_impl(ctx, exe, cases, per_case_timeout=60):
     """-> list of {mats: {tag: rows of Fraction|None}, exc: str|None, crashed: bool, why: str} aligned with cases"""
     results = [None] * len(cases)
     start = 0
+    restarts = 0
     while start < len(cases):
+        if restarts > 6:
+            # a library that dies on (almost) every input: the first failures are the verdict, do not spend the
+            # whole budget restarting
+            for i in range(start, len(cases)):
+                results[i] = {"mats": {}, "exc": None, "crashed": False, "why": "", "ended": False, "skipped": True}
+            break
         inp = "".join(case_line(c) + "\n" for c in cases[start:])
         try:
-            r = ctx.run(exe, inp, timeout=min(1500, 30 + per_case_timeout * (len(cases) - start)),
+            # the whole quick tier takes about a second of harness time: a generous but finite allowance
+            r = ctx.run(exe, inp, timeout=min(600, 40 + 3 * (len(cases) - start)) if per_case_timeout else 600,
                         env={"OMP_NUM_THREADS": "2"})
         except OSError as ex:
             raise vlib.BuildError("harness binary cannot be run: %s" % ex)
+        restarts += 1
         cur = None
         for line in r.out.splitlines():
             w = line.split()
@@ -802,6 +811,8 @@ def evaluate(ctx, exe, mexe, cases, stats):
     impl = run_impl(ctx, exe, cases)
     todo = []   # (case, res, nbrs)
     for c, res in zip(cases, impl):
+        if res.get("skipped"):
+            continue
         stats.evals += 1
         stats.bump(c)
         if res["crashed"] and not c.get("small_k"):
